@@ -1,7 +1,7 @@
 (* Request/response interface of the executable model: one S-expression in,
    one out.  Shared by the extracted runner and the in-Coq path. *)
 From InfluxQL Require Import Base.Prelude Base.Sexp Base.Oracles Lex.Token Lex.Reader Lex.Scanner Ast.Ast Ast.SexpAst
-  Val.Duration Parse.ExprTree Parse.Instr Parse.ParseExpr Parse.ParseStmts Ast.Printer Ast.PrinterStmts Parse.Params Ast.Privileges Ast.ColumnNames Sem.Eval Sem.Reduce.
+  Val.Duration Parse.ExprTree Parse.Instr Parse.ParseExpr Parse.ParseStmts Ast.Printer Ast.PrinterStmts Parse.Params Ast.Privileges Ast.ColumnNames Sem.Eval Sem.Reduce Sem.Condition.
 
 Definition bad_request : sexp := L [A (-1)].
 
@@ -187,6 +187,16 @@ Definition dispatch1 (orc : oracles) (req : sexp) : sexp :=
           match sd_bool ifd, sd_env m, sd_expr e with
           | Some ifd', Some m', Some e' => se_value (eval orc ifd' m' e')
           | _, _, _ => bad_request
+          end
+      | 18%nat, [now; e] =>
+          match sd_opt sd_z now, sd_expr e with
+          | Some now', Some e' =>
+              match ConditionExpr orc (mkValuer [] now') e' with
+              | Some (resid, tr) =>
+                  L [A 0; se_opt se_expr resid; se_opt A (tr_min tr); se_opt A (tr_max tr); A (min_time_nano tr); A (max_time_nano tr)]
+              | None => L [A 1]
+              end
+          | _, _ => bad_request
           end
       | 12%nat, [e] => match sd_expr e with Some e' => se_text (print_expr orc e') | None => bad_request end
       | _, _ => bad_request
